@@ -24,3 +24,13 @@ pub assume_specification<T>[ <[T]>::swap ](s: &mut [T], a: usize, b: usize)
     ensures
         final(s)@ == old(s)@.update(a as int, old(s)@[b as int]).update(b as int, old(s)@[a as int]),
 ;
+
+// Option::is_none_or — std doc: "Returns true if the option is a None or the value inside of it
+// matches a predicate."
+pub assume_specification<T, F: FnOnce(T) -> bool>[ Option::<T>::is_none_or ](o: Option<T>, f: F) -> (r: bool)
+    requires
+        o matches Some(x) ==> call_requires(f, (x,)), // [std.is_none_or.pre.callable]
+    ensures
+        o is None ==> r,
+        o matches Some(x) ==> call_ensures(f, (x,), r),
+;
